@@ -845,7 +845,7 @@ Definition finalize (w : world) : world :=
       if all_workers_gone w then
         let out := fold_left (fun o e => drop_jobs (CWorkerQueue (fst e)) (w_queue (snd e)) o) (pool w) (evs w) in
         let out := drop_jobs CInbox (inbox_jobs (inbox_msg w)) out in
-        set_fstatus FStopped (set_inbox_msg [] (set_inbox_sup [] (set_pool [] (set_evs out w))))
+        set_fstatus FStopped (set_by_actor [] (set_inbox_msg [] (set_inbox_sup [] (set_pool [] (set_evs out w)))))
       else w
   | _ => w
   end.
